@@ -17,6 +17,7 @@ import GenjaxModel.Model.SeedVecIO
 import GenjaxModel.Model.ViElboIO
 import GenjaxModel.Model.AdevProgIO
 import GenjaxModel.Model.AdevDet2IO
+import GenjaxModel.Model.SeedCacheIO
 /-! Line-protocol driver: one S-expression per input line, one per output line. -/
 open Genjax
 
@@ -79,6 +80,9 @@ def dispatch (e : SExp) : SExp :=
   | some r => r
   | none =>
   match Adev2.stepAdevDet2 e with
+  | some r => r
+  | none =>
+  match stepSeedCache e with
   | some r => r
   | none => .list [.atom "bad-op"]
 
